@@ -66,6 +66,27 @@ def directed_configs():
     return out
 
 
+def directed_asym_configs():
+    """HQ configurations with asymmetric transforms, one per horizontal-only wavelet (index 0 included - a falsy enum
+    value) against a different 2-D wavelet, without and with horizontal-only levels (32x16 so that content differs)"""
+    from vc2_conformance.codec_features import CodecFeatures
+
+    base = G.describe(G.rand_config(__import__("random").Random(7), profile=None))
+    out = []
+    for k, (wi, who, d, dho, w, h, frag) in enumerate([(1, 0, 1, 0, 8, 4, 0), (4, 0, 1, 1, 32, 16, 0), (0, 3, 1, 0, 8, 4, 0), (3, 1, 1, 1, 32, 16, 2),
+                                                      (1, 0, 2, 0, 16, 8, 0), (2, 6, 1, 0, 8, 4, 0)]):
+        desc = dict(base, profile=3, pcm=0, lossless=False, w=w, h=h, cdf=0, ss=0, luma_off=0, luma_exc=255, cd_exc=255, cd_off=128,
+                    wavelet=wi, wavelet_ho=who, depth=d, depth_ho=dho, sx=2, sy=1, frag=frag, picture_bytes=w * h * 2)
+        qm = {0: {"LL": 1}} if dho == 0 else {0: {"L": 1}}
+        for lv in range(1, dho + 1):
+            qm[lv] = {"H": 2}
+        for lv in range(dho + 1, d + dho + 1):
+            qm[lv] = {"HL": 2, "LH": 2, "HH": 3}
+        desc["qm"] = qm
+        out.append(CodecFeatures(G.from_description(desc), name="cf"))
+    return out
+
+
 FILLERS = [b"\x00", b"\xFF", b"\xAA", b"\x55", b"\x42\x42\x43\x44\x10\x00\x00\x00\x00\x00\x00\x00\x00"]
 
 
@@ -287,12 +308,12 @@ class Prop(object):
         self._bad = None
         self.correspond_fillers(ctx, ctx.rng("sp"))
         ctx.corr_names.append("REAL decoder test-case registry: every case valid, named uniquely, variants decode like their base, mid-grey exact, numbers as documented")
-        cfs = directed_configs() + [rand_config(rng) for _ in range(ctx.n(25, 300))]
+        cfs = directed_configs() + directed_asym_configs() + [rand_config(rng) for _ in range(ctx.n(25, 300))]
         for ci, cf in enumerate(cfs):
             try:
                 # the two slow generators (signal_range, real_pictures: large analyses, natural pictures) run for a
                 # handful of configurations of the thorough tier only
-                why, n, skipped = violates(cf, ctx.thorough and 12 <= ci < 18)
+                why, n, skipped = violates(cf, ctx.thorough and 18 <= ci < 24)
             except Exception as e:  # noqa
                 why, n, skipped = "exception %s: %s" % (type(e).__name__, str(e)[:200]), 0, []
             ctx.evaluations += n
@@ -316,7 +337,7 @@ class Prop(object):
                 why = "exception %s: %s" % (type(e).__name__, str(e)[:200])
             if why:
                 return {"filler": "fill_ld_slice_padding", "args": list(a), "why": why}
-        for cf in directed_configs() + [rand_config(rng) for _ in range(ctx.n(40, 400))]:
+        for cf in directed_configs() + directed_asym_configs() + [rand_config(rng) for _ in range(ctx.n(40, 400))]:
             try:
                 why, n, skipped = violates(cf)
             except Exception as e:  # noqa
